@@ -4,6 +4,7 @@ import (
 	"strings"
 
 	"pgregory.net/rapid"
+	"verif/harness/hx"
 )
 
 // GenCfg configures the model-aware history generator.
@@ -41,15 +42,15 @@ func (g *gen) intn(n int, label string) int {
 	if n <= 1 {
 		return 0
 	}
-	return rapid.IntRange(0, n-1).Draw(g.rt, label)
+	return hx.Uniform(g.rt, n, label)
 }
 
 func (g *gen) chance(pct int, label string) bool {
-	return rapid.IntRange(0, 99).Draw(g.rt, label) < pct
+	return hx.Chance(g.rt, pct, label)
 }
 
 func (g *gen) name() string {
-	if g.cfg.OddNames && rapid.IntRange(0, 99).Draw(g.rt, "odd") >= 94 {
+	if g.cfg.OddNames && hx.Uniform(g.rt, 100, "odd") >= 94 {
 		return oddPool[g.intn(len(oddPool), "oddi")]
 	}
 	return namePool[g.intn(len(namePool), "name")]
